@@ -16,7 +16,17 @@ THEOREMS = [
     "Remoc.Io.short_unsized_reader_gets_error",
     "Remoc.Io.short_sized_reader_gets_error",
     "Remoc.Io.short_sized_shutdown_is_error",
+    "Remoc.Io.size_wait_after_data_end",
+    "Remoc.Io.eof_sticky",
+    "Remoc.Io.short_sized_error_sticky",
+    "Remoc.Io.ended_stream_decides",
+    "Remoc.Io.flush_hands_over",
+    "Remoc.Io.shutdown_announces_total",
+    "Remoc.Io.read_loop_terminates",
+    "Remoc.Io.run_ghost",
     "Remoc.Io.inv_step",
+    "Remoc.Io.shape_step",
+    "Remoc.Io.end_step",
     "Remoc.Io.inv_reachable",
 ]
 RULE = ("scripts against the real rch::io channel across a real connection (remoc::Connect::io over tokio::io::duplex, "
@@ -84,7 +94,7 @@ def run(ctx, replay=None):
         if files:
             jobs.append(("corpus", ["run"] + files, None))
         parts = 4 if quick else 16
-        per = 600 if quick else 6000
+        per = 600 if quick else 12500
         for i in range(parts):
             jobs.append(("gen%d" % i, ["gen", per], ctx.seed * 1000 + i))
     total, nontrivial, hashes, samples = 0, 0, set(), []
@@ -107,7 +117,7 @@ def run(ctx, replay=None):
             if l.startswith(("DIFF ", "FAIL ")):
                 verdict.setdefault(l.split()[1], []).append(l)
             elif l.startswith("END "):
-                m = re.match(r"END (\S+) events=(\d+) replay=(\w+) pred=(\w+) outcome=(\w+) accepted=(\d+) received=(\d+) segreads=(\d+) lazy=(\d+)", l)
+                m = re.match(r"END (\S+) events=(\d+) replay=(\w+) pred=(\w+) outcome=(\w+) accepted=(\d+) received=(\d+) segreads=(\d+) lazy=(\d+) cancels=(\d+)", l)
                 if not m:
                     continue
                 cname = m.group(1)
@@ -115,12 +125,13 @@ def run(ctx, replay=None):
                 outcomes[m.group(5)] = outcomes.get(m.group(5), 0) + 1
                 stats["reads.partial-slice"] = stats.get("reads.partial-slice", 0) + int(m.group(8))
                 stats["env-labels-inferred"] = stats.get("env-labels-inferred", 0) + int(m.group(9))
+                stats["calls-cancelled-while-pending"] = stats.get("calls-cancelled-while-pending", 0) + int(m.group(10))
                 script, tl = cases.get(cname, ([], []))
                 if m.group(4) != "ok":
                     fails.append((cname, verdict.get(cname, []), script, tl))
                 elif m.group(3) != "ok":
                     diffs.append((cname, verdict.get(cname, []), script, tl))
-                canon = "\n".join(x for x in tl if x.startswith(("call ", "ret ", "drop ", "cut", "hang ")))
+                canon = "\n".join(x for x in tl if x.startswith(("call ", "ret ", "drop ", "cut", "hang ", "cancelled ")))
                 datareads = sum(1 for x in tl if x.startswith("ret r ") and " ok " in x and not x.endswith(" ok -"))
                 decided = m.group(5) in ("eof", "error")
                 if int(m.group(6)) > 0 and (decided or datareads >= 2):
